@@ -104,6 +104,7 @@ Section Calls.
     destruct (sr_child (search_node s v name SlEval)) as [c|]; [|stay].
     destruct (get (f_heap s) c) as [[ch m|dt k id m|lk m]|] eqn:Eg; try stay.
     destruct (Z.ltb size 0); [stay|].
+    destruct (negb (check_permission m OpenWrite (v_user v))); [stay|].
     cbn [fst]. apply step_ok_with_heap. eapply Inv_heap_set_data; eauto.
   Qed.
 
